@@ -59,7 +59,7 @@ ASSUMPTIONS = [
 
 TRAIL = b"\x00\x00\xff\xff"
 OP_TEXT, OP_BINARY, OP_CLOSE, OP_PING, OP_PONG = 1, 2, 8, 9, 10
-CLOSE_CODES = [1000, 1001, 1002, 1003, 1006, 1007, 1008, 1009, 1010, 1011, 1012, 1013, 1014]
+CLOSE_CODES = [1000, 1001, 1002, 1003, 1007, 1008, 1009, 1010, 1011, 1012, 1013, 1014]   # 1006 is reserved: never on the wire
 
 
 # ------------------------------------------------------------------------------------------------
@@ -428,7 +428,7 @@ def op_wf(rc, op) -> bool:
 
 def fits(rc, op, wlen) -> bool:
     if op[0] == "S" and op[1] in (OP_TEXT, OP_BINARY) and rc["max"]:
-        return wlen < rc["max"] and len(op[4]) // 2 <= rc["max"]
+        return wlen <= rc["max"] and len(op[4]) // 2 <= rc["max"]      # max_msg_size is the largest size accepted
     return True
 
 
@@ -577,9 +577,9 @@ def gen_ops(rng, cfg, rc, nops, pool, allow_big, p_override=0.12, p_bad=0.03):
                 n = rng.choice([126, 127, 200])
             ops.append(["S", rng.choice([OP_PING, OP_PONG]), 0, rbits, rng.randbytes(n).hex()])
         elif r < 0.93:
-            code = rng.choice([1000, 1000, 1001, 1011, 3000, 4999, 1006])
+            code = rng.choice([1000, 1000, 1001, 1011, 3000, 4999, 1014])
             if rng.random() < p_bad * 3:
-                code = rng.choice([0, 999, 1004, 1005, 2999, 5000, 65535, 65536, 70000])
+                code = rng.choice([0, 999, 1004, 1005, 1006, 2999, 5000, 65535, 65536, 70000])
             reason = rng.choice([b"", b"bye", "né".encode(), b"r" * 123])
             if rng.random() < p_bad:
                 reason = rng.choice([b"\xff", b"r" * 124])
@@ -933,19 +933,27 @@ def run_history(case):
         t = asyncio.current_task(loop) if loop.is_running() else None
         return t if t is not None else job_owner[0]
 
+    eager = bool(case.get("eager"))   # the worker thread starts the job at once; its result arrives at the `exec` step
+
     def rie(executor, fn, *args):
         fut = loop.create_future()
-        jobs.append([fut, fn, args, asyncio.current_task(loop)])
+        j = [fut, fn, args, asyncio.current_task(loop), None]
+        if eager:
+            j[4] = (fn(*args),)
+        jobs.append(j)
         return fut
     loop.run_in_executor = rie
 
     def run_job(j, deliver=True):
-        fut, fn, args, own = j
-        job_owner[0] = own
-        try:
-            res = fn(*args)
-        finally:
-            job_owner[0] = None
+        fut, fn, args, own, pre = j
+        if pre is not None:
+            res = pre[0]
+        else:
+            job_owner[0] = own
+            try:
+                res = fn(*args)
+            finally:
+                job_owner[0] = None
         if deliver and not fut.done():
             fut.set_result(res)
 
@@ -1154,7 +1162,7 @@ def gen_history(rng, backend):
     for i in pending:
         steps.append(["spawn", i])
     return {"kind": "concurrent", "suite": "concurrent", "backend": backend, "cfg": cfg, "rc": {"max": 0, "decode_text": 0},
-            "senders": senders, "steps": steps, "cuts": gen_cuts(rng, 4000)}
+            "senders": senders, "steps": steps, "cuts": gen_cuts(rng, 4000), "eager": rng.randrange(2)}
 
 
 def shrink_history(case, budget=60):
